@@ -147,6 +147,7 @@ def judge(ctx, lang, reqs, work, prep):
     fails = {}          # (name, kind) -> [(req, detail, expected words)]
     refused_legal = {}
     covered = set()
+    answered = {}
 
     def fail(r, kind, detail, exp=None):
         fails.setdefault((r.name, kind), []).append((r, detail, exp))
@@ -162,6 +163,7 @@ def judge(ctx, lang, reqs, work, prep):
         ctx.observe((lang, r.name, shape))
         ctx.count(lang + "_requests")
         covered.add(r.name)
+        answered[r.name] = answered.get(r.name, 0) + (r.status == "ok")
         if r.status == "skip":
             ctx.count(lang + "_skipped_impossible")
             continue
@@ -260,6 +262,9 @@ def judge(ctx, lang, reqs, work, prep):
                           for it in items[:300])
         ctx.violation("c08:%s%s:%s" % (pfx, name, kind), what, files={"failing_requests.tsv": listing},
                       cmd="VERIF_SEED=%d ./check C08 --tier %s --opt only=%s" % (ctx.seed, ctx.tier, re.escape(name)))
+    for name in sorted(covered):
+        if not answered.get(name):
+            ctx.inconc("%s assembler: no request for `%s` was answered (all refused or skipped): the method is not checked" % (lang, name))
     rl = {}
     for name, items in sorted(refused_legal.items()):
         items.sort(key=_weight)
@@ -750,6 +755,10 @@ def run(ctx):
         "LLVM's assembler rejects constrained-unpredictable register combinations (ldp Rt==Rt2, writeback base == Rt, "
         "stxr status == source); those requests are compared through LLVM's disassembly text instead",
         "label distances beyond 4096 instructions are produced by moving the assembler position, not by emitting code",
+        "the Dora assembler is driven with a covering sample (single-operand register sweeps + boundary sweeps; a request "
+        "that is refused ends the test process, so refusals are sampled: at most a budget of expected refusals, and per "
+        "(method, operand-shape class) only until the first/second refusal); its free predicate functions (fits_movz, ...) "
+        "are not compared",
     ]
     build.ensure_harness(["vh-asm-arm64"])
     work = core.scratch("c08-work")
